@@ -84,4 +84,14 @@ CHECKS['C01'] = {
   'technique': 'must-pass/dominance cuts, partial evaluation of loop headers, call-graph cycle detection, slot-addressed coverage rules',
 }
 
+CHECKS['C17'] = {
+  'text': 'Decides agreement and pairing structure of the registry: role-normalised probe fragments (home slot, stop, advance, hit, '
+          'displacement, stored hash, back-shift) agree across insert/lookup/remove/marker and with Table\'s probe-distance function; '
+          'entries move as a whole on displacement, back-shift and rehash; counts paired with insert/remove; flags and bounds recorded; '
+          'shrink and threshold update after removals; sweep compaction re-examines the slot. Does not decide the probe-distance '
+          'invariant for all address patterns.',
+  'note': ASSUME,
+  'technique': 'sibling agreement over extracted canonical fragments, natural-loop analysis, header partial evaluation, must-pass cuts',
+}
+
 NOT_APPLICABLE = {}
